@@ -1336,3 +1336,37 @@ def rownames(F, R):
         R.ob('C14.rows', ok, {'row': Facts.short(t, 90), 'tag': tag, 'expected_from_name': want})
         if not ok:
             R.find('C14.rows', (loc, r['q']), 'name:' + r['n'], 'front-end row template %s carries %s, its documented kind is %s: the back-end builds %s' % (r['n'], tag, want, 'an external transition (exit and entry run) for an internal row' if 'irow' in want or 'i_row' in want else 'the wrong executor'), where=r['loc'], instance=Facts.short(t, 200))
+
+@rule('policysel')
+def policysel(F, R):
+    """C19.select: the active-state-switch policy a back-end uses for a machine (its `active_state_switching` typedef, which the
+    executors' four writes go through - C19.slots / C19.policies) is the one the front-end declares: the element of its `configuration`
+    sequence that carries an `active_state_switch_policy` typedef (back, back11), else the front-end's own / inherited
+    `active_state_switch_policy` typedef (default: switch after entry)."""
+    from rules_core import backend_of
+    M = Model(F)
+    done = set()
+    for r in F.records:
+        if 'active_state_switching' not in r['tds'] or not r['loc'].startswith('boost/msm/back'): continue
+        t = F.strs[r['t']]
+        m = M.machine_of(t)
+        if m is None:
+            h, a, rest = parse_type(t)
+            if h.endswith('transition_table_impl') and a: m = M.machine_of(a[0])
+        if m is None or F.rec_by_type(m.fe) is None or t in done: continue
+        done.add(t)
+        got = strip_cvref(F.strs[r['tds']['active_state_switching']])
+        want = None
+        if m.backend in ('back', 'back11'):
+            for c in M.seq(m.fe, 'configuration') or []:
+                cr = F.rec_by_type(strip_cvref(c))
+                if cr and 'active_state_switch_policy' in cr['tds']: want = strip_cvref(F.strs[cr['tds']['active_state_switch_policy']]); break
+        if want is None:
+            w = M.member_type(m.fe, 'active_state_switch_policy')
+            want = strip_cvref(w) if w else 'boost::msm::active_state_switch_after_entry'
+        R.anchor('policy-select:' + m.backend)
+        if not want.endswith('active_state_switch_after_entry'): R.anchor('policy-select-nondefault:' + m.backend)
+        ok = got == want
+        R.ob('C19.select', ok, {'machine': Facts.short(m.fe, 60), 'declared': want.split('::')[-1], 'used': got.split('::')[-1]})
+        if not ok:
+            R.find('C19.select', (r['loc'].split(':')[0], r['q']), 'policy', 'machine %s declares %s but the back-end switches the active state with %s' % (Facts.short(m.fe, 60), want.split('::')[-1], got.split('::')[-1]), where=r['loc'], instance=Facts.short(m.fe, 150))
